@@ -21,7 +21,11 @@ pub(super) fn next<'a>(src: &mut &'a [u8]) -> Option<io::Result<(&'a [u8], &'a [
 
     let tag = match take_tag(src) {
         Ok(buf) => buf,
-        Err(e) => return Some(Err(e)),
+        Err(e) => {
+            // A failed parse does not advance the source. Stop after the error.
+            *src = &[];
+            return Some(Err(e));
+        }
     };
 
     let value = take_value(src);
